@@ -30,6 +30,17 @@ CLAIMED.update({
  'C06': conc('Races of PUT /allocations, POST /allocations and POST /reshaper on one consumer (new or existing; generations null, current, stale, next, guessed 0): Tx.tla model checked by TLC (C06_Tx), every distinguishable interleaving replayed on the real code and judged by TLC (C06_Commits, C06_AtMostOne, admissible error statuses, outcome admitted by Tx.tla).', '7.6'),
  'C07': conc('Allocation writes for equal and different consumers racing for one inventory and against generation-guarded inventory shrink / trait / aggregate updates: SerializableTx as TLC invariant of Tx.tla; for every replayed interleaving TLC searches the serial orders of the effective successful requests under API!Apply for one that reproduces statuses and the final database.', '7.7'),
 })
+FAULT_NOTE = ('Trusted base: TLC, pv/faults.py (faults raised from the SQLAlchemy before_cursor_execute event), pv/project.py, SQLite. '
+              'The database-side rollback of a deadlock victim is emulated (ROLLBACK; BEGIN on the raw cursor); crashes are a BaseException at the crash point. '
+              'Exhaustive over every statement index of every request of the write corpus (30 requests), single faults.')
+CLAIMED.update({
+ 'C17': dict(engine='fault', category='fault_enumeration', design_ref='7.17', note=FAULT_NOTE,
+             technique='exhaustive fault injection at every SQL statement of a write corpus on the real code, each outcome judged by TLC against API!Apply (TraceFault.tla); Tx.tla with Fault actions model checked (ExactlyOnceOrClean)',
+             text='For every request of the write corpus (all write routes, start-up sync from an empty / partial / full database) and every index k of its SQL statements: a deadlock (with and without database-side rollback), a duplicate key on first aggregate creation, a generic and a connection error is injected before statement k; TLC decides for each execution that a success is the effect of API!Apply exactly once (generations may have moved further only on the touched entities) and that an error is well formed and left the database unchanged.'),
+ 'C18': dict(engine='fault', category='fault_enumeration', design_ref='7.18', note=FAULT_NOTE,
+             technique='exhaustive crash injection before every SQL statement of a write corpus on the real code, surviving state judged by TLC (TraceFault.tla); Tx.tla with Crash actions model checked (CrashConsistent)',
+             text='The request is abandoned (process death, transaction in flight rolled back) before each of its SQL statements, i.e. before and after every statement and every commit; TLC decides that the surviving database is the one before or the one after the request apart from consumers without allocations, and satisfies capacity safety, referential integrity and the forest invariant.'),
+})
 NOT_CLAIMED = {}
 ENGINES = [
  {'name': 'seq', 'path': 'pv/seqengine.py', 'serves_properties': ['C01', 'C04', 'C08', 'C09', 'C10', 'C11', 'C12', 'C19'],
@@ -37,4 +48,6 @@ ENGINES = [
 ]
 ENGINES.append({'name': 'concur', 'path': 'pv/concur.py', 'serves_properties': ['C05', 'C06', 'C07'],
   'kind_free_text': 'spec/Tx.tla + TxRaces.tla (transaction-structure model, TLC); pv/sched.py deterministic transaction scheduler over the real WSGI app; spec/TraceSerial.tla (TLC judges each recorded interleaving)'})
+ENGINES.append({'name': 'fault', 'path': 'pv/faults.py', 'serves_properties': ['C17', 'C18'],
+  'kind_free_text': 'statement-level fault / crash injection through SQLAlchemy engine events; spec/TraceFault.tla judges each outcome with API!Apply; spec/Tx.tla Crash/Fault actions (TxSingle.cfg)'})
 NOTES = 'See DESIGN.md. ./check <id> --tier quick|thorough [--seed N] [--replay FILE]; exit 2 = machinery failure.'
